@@ -5,7 +5,7 @@ content = dict(vers=1.2|2.0, well=[(mnem, unit, value text, description)], curve
                frames=[[cell text per curve]])        (the first cell of each frame is the index value)
 layout  = dict(wrap=bool, lead=spaces before every section line, sep=spaces between data columns, comments=bool (a comment line after every
                section heading and before the first data row), blanks=bool (a blank line before every section), per_line=values per wrapped line,
-               colon_pad=spaces around the ':' delimiter)
+               colon_pad=spaces around the ':' delimiter, comment_indent=white space before the '#' of comment lines)
 """
 
 NULL = -999.25
@@ -24,7 +24,7 @@ def render(content, lay):
             out.append('\n')
         out.append(h + '\n')
         if lay['comments']:
-            out.append('#MNEM.UNIT      VALUE : DESCRIPTION\n')
+            out.append(lay.get('comment_indent', '') + '#MNEM.UNIT      VALUE : DESCRIPTION\n')
     head('~Version Information')
     out.append(_line('VERS', '', '%.1f' % content['vers'], 'CWLS LOG ASCII STANDARD -VERSION %.1f' % content['vers'], lay))
     out.append(_line('WRAP', '', 'YES' if lay['wrap'] else 'NO', 'One line per depth step' if not lay['wrap'] else 'Multiple lines per depth step', lay))
@@ -50,7 +50,7 @@ def render(content, lay):
             for i in range(0, len(rest), k):
                 out.append(' ' * lay['lead'] + sep.join(rest[i:i + k]) + '\n')
         if lay['comments'] and fr is content['frames'][0]:
-            out.append('# a comment between data rows\n')
+            out.append(lay.get('comment_indent', '') + '# a comment between data rows\n')
     return ''.join(out)
 
 
